@@ -300,6 +300,16 @@ def witness_tags(path):
     return []
 
 
+def with_composites(tags, wtags):
+    """crash tags + input-class tags + their combinations kind@frame@inputclass (for narrow known-finding classifiers)"""
+    out = list(tags) + list(wtags)
+    for t in tags:
+        if "@" in t:
+            for w in wtags:
+                out.append("%s@%s" % (t, w))
+    return out
+
+
 def match_known(findings, prop, claim, tags):
     for f in findings:
         if f.get("property") != prop or f.get("claim") != claim:
@@ -416,7 +426,7 @@ def run_property(prop, tier, seed, replay=None):
                     eprint("replay %s: %s" % (replay, st))
                     return 2
                 if st == "crash":
-                    tags = classify_crash(w.stderr_text(), w.rc) + witness_tags(replay)
+                    tags = with_composites(classify_crash(w.stderr_text(), w.rc), witness_tags(replay))
                     eprint(w.stderr_text(4000))
                     report(prop + ".crash", tags, replay, "worker died rc=%s" % w.rc)
                 for r in recs:
@@ -455,7 +465,7 @@ def run_property(prop, tier, seed, replay=None):
             st, recs, w = replay_one(prop, wpath, seed, tier, tmp, "pin%d" % n)
             hit = []
             if st == "crash":
-                hit.append((prop + ".crash", classify_crash(w.stderr_text(), w.rc) + witness_tags(wpath), "worker died rc=%s" % w.rc))
+                hit.append((prop + ".crash", with_composites(classify_crash(w.stderr_text(), w.rc), witness_tags(wpath)), "worker died rc=%s" % w.rc))
             for r in recs:
                 if r.get("t") == "violation":
                     hit.append((r["claim"], r.get("tags", []), r.get("detail", "")))
@@ -533,7 +543,7 @@ def run_property(prop, tier, seed, replay=None):
                         tags = classify_crash(txt2, rc2) if not to2 else tags
                         txt = txt2 or txt
                 if witness:
-                    tags += witness_tags(witness)
+                    tags = with_composites(tags, witness_tags(witness))
                 keep = os.path.join(REPLAY, "%s_%s_crash_s%d_%s_%d.stderr.txt" % (prop, w.job["mon"], seed, w.tag, ci))
                 with open(keep, "w") as f:
                     f.write(txt)
